@@ -259,3 +259,19 @@ def internal(version, state, emits, msg, metric, local_time):
         wake_up(state, emits, node)
         return LE1, emits
     return LE1, emits
+
+
+def ref_set_child_value(version, state, node, child, value_type, value):
+    """Controller call set_child_value with a value type / value that is valid for the versions
+    involved.  Returns ('ok' | 'raises', expected emissions)."""
+    emits = []
+    if not known(version, state, emits, node, child):
+        return "ok", emits
+    me = state["nodes"][node]
+    if sleeping(me):
+        if child not in me["desired"]:
+            return "raises", emits  # presented after the last wake-up: refused to the caller
+        me["desired"][child][value_type] = value
+        return "ok", emits
+    emits.append((node, child, 1, value_type, value))
+    return "ok", emits
